@@ -5,6 +5,7 @@ package main
 
 import (
 	"encoding/json"
+	"fmt"
 	"reflect"
 )
 
@@ -25,7 +26,11 @@ func init() {
 		_ = json.Unmarshal(b, &gotN)
 		b, _ = json.Marshal(w["defect"])
 		_ = json.Unmarshal(b, &wantN)
-		return reflect.DeepEqual(gotN, wantN)
+		if !reflect.DeepEqual(gotN, wantN) {
+			fmt.Println("got:", string(marshal(got)))
+			return false
+		}
+		return true
 	}
 	// {"kind":"print","text":…,"printed":…}: Parse(text).String() == printed (the defective text)
 	witnessFns["print"] = func(w map[string]any) bool {
